@@ -74,7 +74,7 @@ def pat_match(pat, shape):
         if shape == ANY:
             return MAYBE
         if shape[0] == "s":
-            return YES if _unquote(v) == shape[1] else NO
+            return YES if (v if pat.get("str") else _unquote(v)) == shape[1] else NO
         if shape[0] == "s*":
             return NO
         if shape[0] == "b":
@@ -131,11 +131,15 @@ def str_constants(arms):
     def rec(p):
         k = p.get("k")
         if k == "Constant":
-            v = p["value"].strip()
-            if v.startswith('"'):
-                u = _unquote(v)
-                if u not in out:
-                    out.append(u)
+            if p.get("str"):
+                if p["value"] not in out:
+                    out.append(p["value"])
+            else:
+                v = p["value"].strip()
+                if v.startswith('"'):
+                    u = _unquote(v)
+                    if u not in out:
+                        out.append(u)
         for key in ("sub", "slice"):
             if p.get(key):
                 rec(p[key])
